@@ -58,7 +58,30 @@ fn gen_layout(r: &mut Rng, absorbing: bool) -> Layout {
   Layout { mappings: ms }
 }
 
+/// rare shapes: the non-modifier keys of a case renamed (injectively) to keys from the WHOLE key-code range, among them a pair of codes that agree
+/// modulo 256; the mapper treats all non-modifier keys alike, so every oracle verdict is unchanged - unless the code under test narrows key codes
+pub fn rename_keys(r: &mut Rng, mut layout: Layout, mut hist: Vec<Event>) -> (Layout, Vec<Event>) {
+  let all: Vec<KeyCode> = (0u32..1024).filter_map(|c| { let k: Option<KeyCode> = num_traits::FromPrimitive::from_u16(c as u16); k }).filter(|k| ref_is_action_key(k) && *k != KeyCode::KPJPCOMMA).collect();
+  let twins: Vec<(KeyCode, KeyCode)> = all.iter().flat_map(|a| all.iter().filter(move |b| { let (x, y) = (*a as i32, **b as i32); y > x && (y - x) % 256 == 0 }).map(move |b| (*a, *b))).collect();
+  let mut used: Vec<KeyCode> = Vec::new();
+  for m in &layout.mappings { for k in m.from.iter().chain(m.to.iter()).chain(m.absorbing.iter()) { if !used.contains(k) { used.push(*k); } } if let Repeat::Special { keys, .. } = &m.repeat { for k in keys { if !used.contains(k) { used.push(*k); } } } }
+  for e in &hist { let k = match e { Pressed(k) | Released(k) => *k }; if !used.contains(&k) { used.push(k); } }
+  let (ta, tb) = twins[r.below(twins.len())];
+  let mut map: Vec<(KeyCode, KeyCode)> = Vec::new();
+  for k in used { if !ref_is_action_key(&k) || k == KeyCode::KPJPCOMMA { continue; }
+    let mut n = if !map.iter().any(|p| p.1 == ta) { ta } else if !map.iter().any(|p| p.1 == tb) { tb } else { all[r.below(all.len())] };
+    while map.iter().any(|p| p.1 == n) { n = all[r.below(all.len())]; }
+    map.push((k, n)); }
+  let f = |k: &mut KeyCode| { if let Some(p) = map.iter().find(|p| p.0 == *k) { *k = p.1; } };
+  for m in layout.mappings.iter_mut() { m.from.iter_mut().for_each(&f); m.to.iter_mut().for_each(&f); m.absorbing.iter_mut().for_each(&f); if let Repeat::Special { keys, .. } = &mut m.repeat { keys.iter_mut().for_each(&f); } }
+  for e in hist.iter_mut() { match e { Pressed(k) | Released(k) => f(k) } }
+  (layout, hist)
+}
 pub fn gen_case(r: &mut Rng, with_release_all: bool) -> (Layout, Vec<Event>) {
+  let (layout, hist) = gen_case_small(r, with_release_all);
+  if r.below(6) == 0 { rename_keys(r, layout, hist) } else { (layout, hist) }
+}
+fn gen_case_small(r: &mut Rng, with_release_all: bool) -> (Layout, Vec<Event>) {
   let absorbing = r.below(2) == 0;
   let layout = gen_layout(r, absorbing);
   let len = 1 + r.below(14);
@@ -97,6 +120,10 @@ fn clone_state(st: &State) -> State {
 
 /// run `hist` on a new mapper for `layout`, checking the oracles of `prop`; first violation as (step index, message)
 pub fn check_history(prop: &str, layout: &Layout, hist: &Vec<Event>, trace: bool) -> Option<(usize, String)> {
+  // keys of the history that occur nowhere in the layout (C05 "a key that appears nowhere in the layout")
+  let mut foreign_keys: Vec<KeyCode> = Vec::new();
+  for e in hist.iter() { if *e == RELEASE_ALL { continue; } let k = match e { Pressed(k) | Released(k) => *k };
+    if !foreign_keys.contains(&k) && !layout.mappings.iter().any(|mp| mp.from.contains(&k) || mp.to.contains(&k) || mp.absorbing.contains(&k) || matches!(&mp.repeat, Repeat::Special { keys, .. } if keys.contains(&k))) { foreign_keys.push(k); } }
   let has_abs = layout.mappings.iter().any(|m| !m.absorbing.is_empty());
   // known finding D8 (see /verif/known_findings.txt): an absorbing mapping whose output has no non-modifier key takes over the single
   // absorbing_trigger without lifting earlier absorbed keys. The witness SEARCH stays inside the claimed scope (every absorbing mapping
@@ -208,7 +235,7 @@ pub fn check_history(prop: &str, layout: &Layout, hist: &Vec<Event>, trace: bool
     }
     // C05 foreign keys
     let norepeat_fired = fired.as_ref().map(|fm| fm.repeat != Repeat::Normal).unwrap_or(false);
-    for f in FOREIGN.iter() { let f = *f;
+    for f in foreign_keys.iter() { let f = *f;
       if layout.mappings.iter().any(|mp| mp.from.contains(&f) || mp.to.contains(&f) || mp.absorbing.contains(&f)) { continue; }
       if *e == Pressed(f) && acted && !res.events.contains(&Pressed(f)) { fail("C05", format!("foreign key {:?}: press not forwarded", f)); }
       if phys.contains(&f) && dev_before.contains(&f) && !dev.contains(&f) && *e != Released(f) {
